@@ -25,7 +25,7 @@ def spellings_of(op):
     out = ["numpoly"]
     if op.name in ("getitem", "ravel", "flatten", "T", "flat", "iter", "copy"):
         return ["method"]
-    if op.name in ("full",):  # numpy.full never dispatches on fill_value
+    if op.name in ("full", "ones", "zeros"):  # no polynomial argument numpy could dispatch on
         return ["numpoly"]
     out.append("numpy")
     if op.method is not None:
